@@ -17,11 +17,21 @@ payload = json.load(open(sys.argv[1]))
 mode = payload["mode"]
 progress = open(payload["progress"], "a")
 
-import vectorizers.coo_utils as cu
+if mode in ("state", "big"):
+    # the accumulator kernels need nothing but vectorizers/coo_utils.py: load that file on its own (same source, no
+    # 9 s package import); cwd is the repo under test
+    import importlib.util
+    _spec = importlib.util.spec_from_file_location("coo_utils_under_test", os.path.join(os.getcwd(), "vectorizers", "coo_utils.py"))
+    cu = importlib.util.module_from_spec(_spec)
+    sys.modules["coo_utils_under_test"] = cu
+    _spec.loader.exec_module(cu)
+else:
+    import vectorizers.coo_utils as cu
 
 if payload.get("limit") is not None:
     cu.COO_QUICKSORT_LIMIT = int(payload["limit"])
-from vectorizers.coo_utils import CooArray, coo_append, coo_sum_duplicates, merge_all_sum_duplicates
+CooArray, coo_append, coo_sum_duplicates, merge_all_sum_duplicates = (
+    cu.CooArray, cu.coo_append, cu.coo_sum_duplicates, cu.merge_all_sum_duplicates)
 
 MOD = 1099511627775
 
@@ -117,6 +127,9 @@ def run_api(case):
     if kind == "ngram":
         kw["ngram_size"] = p["ngram_size"]
     model = vectorizer(kind)(**kw)
+    if case.get("set_threads"):
+        import numba
+        numba.set_num_threads(int(case["set_threads"]))
     X = G.corpus_for(kind, case["corpus"])
     if case.get("fit_corpus") is not None:
         model.fit(G.corpus_for(kind, case["fit_corpus"]))
